@@ -441,7 +441,7 @@ def judge(res, obs, driver_reqs):
             def trip(t):
                 pn = e2e.parse_note(t) if t else None
                 return sorted([p, h, l] for p, hs in (pn["files"].items() if pn else []) for h, ls in hs.items() for l in set(ls))
-            driver_reqs.append(({"op": "c15_lines", "k": obs["labels"][k], "tree": gl(g), "head": gl(obs["ghost"][-1]),
+            driver_reqs.append(({"op": "c15_lines", "rebase": rebase, "k": obs["labels"][k], "tree": gl(g), "head": gl(obs["ghost"][-1]),
                                  "changed": sorted(changed)},
                                 ("lines", (trip(fast["notes"].get(fast["news"][k])), trip(slow["notes"].get(slow["news"][k]))),
                                  dict(wit, index=k))))
